@@ -44,9 +44,18 @@ func genLemma(g *Gen, c *Contract) (fg *FG, err error) {
 		fg.assume(env.tr(r.E).T)
 	}
 	for _, u := range c.Uses {
+		// use: an instance of another lemma (its requires ==> its ensures); nothing else may be assumed
+		if u.E.Kind != SCall || u.E.A.Kind != SIdent || g.ct.C["lemma."+u.E.A.Name] == nil {
+			fg.fail("use: %s is not a lemma application", u.Src)
+		}
 		fg.assume(env.tr(u.E).T)
 	}
 	fg.cover("cover:requires", "true")
+	// assert: proof steps, each proved from what precedes it and then available to what follows
+	for k, a := range c.Asserts {
+		t := env.tr(a.E)
+		fg.oblig("lemma", fmt.Sprintf("lemma-step:%s", clauseName(a, k)), a.Tag, "true", t.T, a.Src, fmt.Sprintf("%s:%d", a.File, a.Line))
+	}
 	for k, q := range c.Ensures {
 		t := env.tr(q.E)
 		fg.oblig("lemma", fmt.Sprintf("lemma:%s", clauseName(q, k)), q.Tag, "true", t.T, q.Src, fmt.Sprintf("%s:%d", q.File, q.Line))
